@@ -18,3 +18,11 @@ VARIANTS = [
     silent("c15-format-builtin", [(RS, '        return f"{self._result:b}".zfill(len(self.subcircuit.measured_qubits))[::-1]', '        width = len(self.subcircuit.measured_qubits)\n        return format(self._result, "b").zfill(width)[::-1]')], P),
     silent("c15-reversed-join", [(RS, "            nxt = int(nxt[::-1], 2)", '            nxt = int("".join(reversed(nxt)), 2)')], P),
 ]
+
+RS15 = "src/jaqalpaq/core/result.py"
+VARIANTS += [
+    # reverting fix 2aa8d44
+    fire("c15-string-view-width-from-trace",
+         [(RS15, "        qubits = len(self.measured_qubits)\n        rf = self._relative_frequencies", "        qubits = len(self._trace.used_qubits)\n        rf = self._relative_frequencies")],
+         ("C15.7", "relative_frequency_by_str:width-source"), ("C15",)),
+]
